@@ -213,9 +213,12 @@ fn extract_files_with_metadata(
 ) -> Result<Vec<(Vec<u8>, FileMetadata)>> {
     // Get file list, preferring the most complete method
     let files = if metadata.has_het_bet {
-        archive
-            .list_all_with_hashes()
-            .unwrap_or_else(|_| archive.list().unwrap_or_default())
+        // Prefer the real names from the (listfile): the generic names produced by
+        // table enumeration cannot be read back, so every file would be skipped
+        match archive.list() {
+            Ok(files) => files,
+            Err(_) => archive.list_all_with_hashes().unwrap_or_default(),
+        }
     } else {
         archive
             .list()
